@@ -230,4 +230,281 @@ theorem edges_escaped (v : Bytes)
           · rw [List.flatMap_cons, List.head?_append, hha]; rfl
           · rw [hys, List.flatMap_append, List.flatMap_singleton, List.getLast?_append, hhb]; rfl
 
+
+/-! ### unpacking the decidable predicates -/
+
+theorem needsQuote_false {v : Bytes} (h : needsQuote v = false) :
+    (∀ a, v.head? = some a → a ≠ 32 ∧ a ≠ 9) ∧ (∀ b, v.getLast? = some b → b ≠ 32 ∧ b ≠ 9) ∧ ¬ 35 ∈ v := by
+  unfold needsQuote at h
+  simp only [Bool.or_eq_false_iff] at h
+  obtain ⟨⟨h1, h2⟩, h3⟩ := h
+  refine ⟨?_, ?_, ?_⟩
+  · intro a ha
+    rw [ha] at h1
+    simp [Gen.Config.quoteIfStartsWith] at h1
+    exact h1
+  · intro b hb
+    rw [hb] at h2
+    simp [Gen.Config.quoteIfEndsWith] at h2
+    exact h2
+  · simp [Gen.Config.quoteIfContains] at h3
+    exact fun hm => h3 35 hm rfl
+
+theorem wfValue_unpack {v : Bytes} (h : wfValue v = true) :
+    ¬ 13 ∈ v ∧ (needsQuote v = true ∨
+      (needsQuote v = false ∧ ¬ 59 ∈ v ∧ (∀ a, v.head? = some a → a ≠ 11 ∧ a ≠ 12) ∧
+        (∀ b, v.getLast? = some b → b ≠ 11 ∧ b ≠ 12))) := by
+  unfold wfValue at h
+  simp only [Bool.and_eq_true, Bool.not_eq_true', Bool.or_eq_true] at h
+  obtain ⟨h13, h⟩ := h
+  refine ⟨by simpa [CR] using h13, ?_⟩
+  cases hq : needsQuote v with
+  | true => left; rfl
+  | false =>
+    right
+    rw [hq] at h
+    simp only [Bool.false_eq_true, false_or] at h
+    obtain ⟨⟨h59, hh⟩, hl⟩ := h
+    refine ⟨rfl, by simpa [SEMI] using h59, ?_, ?_⟩
+    · intro a ha; rw [ha] at hh; simp [VT, FF] at hh; exact hh
+    · intro b hb; rw [hb] at hl; simp [VT, FF] at hl; exact hl
+
+
+/-! ### subsection escaping -/
+
+/-- what `_escape_subsection` does to one byte -/
+def subEscByte (c : UInt8) : Bytes := applyWrites Gen.Config.subsectionWrites [c]
+
+theorem subEscByte_eq : ∀ c : UInt8, subEscByte c =
+    if c = 92 then [92, 92] else if c = 34 then [92, 34] else [c] := by
+  apply forall_u8; decide +kernel
+
+theorem escapeSubsection_ok {s e : Bytes} (h : escapeSubsection s = .ok e) :
+    e = s.flatMap subEscByte ∧ ¬ 10 ∈ s ∧ ¬ 0 ∈ s := by
+  unfold escapeSubsection at h
+  split at h
+  · cases h
+  · rename_i hf
+    simp only [Except.ok.injEq] at h
+    subst h
+    refine ⟨?_, ?_, ?_⟩
+    · have := applyWrites_flatMap Gen.Config.subsectionWrites (fun c => [c]) s
+      simp only [List.flatMap_singleton'] at this
+      exact this
+    · intro hm; apply hf; simp only [List.any_eq_true]; exact ⟨10, hm, by decide⟩
+    · intro hm; apply hf; simp only [List.any_eq_true]; exact ⟨0, hm, by decide⟩
+
+theorem unescape_step (c : UInt8) (rest : Bytes) :
+    unescapeSubsection (subEscByte c ++ rest) = c :: unescapeSubsection rest := by
+  rw [subEscByte_eq]
+  by_cases h92 : c = 92
+  · subst h92; simp [unescapeSubsection, Gen.Config.unescapeChar]
+  by_cases h34 : c = 34
+  · subst h34; simp [unescapeSubsection, Gen.Config.unescapeChar]
+  simp only [h92, h34, if_false, List.singleton_append]
+  cases rest with
+  | nil => simp [unescapeSubsection]
+  | cons d r => simp [unescapeSubsection, Gen.Config.unescapeChar, h92]
+
+theorem unescape_escaped (s : Bytes) : unescapeSubsection (s.flatMap subEscByte) = s := by
+  induction s with
+  | nil => simp [unescapeSubsection]
+  | cons c s ih => rw [List.flatMap_cons, unescape_step, ih]
+
+
+/-! ### section headers -/
+
+/-- bytes with no meaning to `_strip_comments` or to the closing-bracket scan -/
+def Plain (c : UInt8) : Prop := c ≠ 34 ∧ c ≠ 92 ∧ c ≠ 93 ∧ c ≠ 35 ∧ c ≠ 59
+
+theorem sectionChar_plain : ∀ c : UInt8, (isAlnum c || Gen.Config.sectionNameExtra.contains c) = true →
+    Plain c ∧ c ≠ 32 := by
+  apply forall_u8; unfold Plain; decide +kernel
+
+theorem stripCommentsAux_plain (P : Bytes) (hP : ∀ c ∈ P, Plain c) (rest : Bytes) (opn : Bool) :
+    stripCommentsAux (P ++ rest) opn = P ++ stripCommentsAux rest opn := by
+  induction P with
+  | nil => rfl
+  | cons c P ih =>
+    obtain ⟨h34, _, _, h35, h59⟩ := hP c (by simp)
+    have := ih (fun d hd => hP d (by simp [hd]))
+    simp [stripCommentsAux, Gen.Config.stripCommentQuote, Gen.Config.stripCommentChars, h34, h35, h59, this]
+
+/-- parity of the number of `"` seen, as `_strip_comments` tracks it -/
+def quoteParity : Bytes → Bool → Bool
+  | [], o => o
+  | c :: r, o => quoteParity r (if c = 34 then !o else o)
+
+theorem stripCommentsAux_escaped (s : Bytes) : ∀ (odd : Bool) (rest : Bytes), subCommentHazard s odd = false →
+    stripCommentsAux (s.flatMap subEscByte ++ rest) (!odd) =
+      s.flatMap subEscByte ++ stripCommentsAux rest (!(quoteParity s odd)) := by
+  induction s with
+  | nil => intro odd rest _; rfl
+  | cons c s ih =>
+    intro odd rest hz
+    rw [List.flatMap_cons, List.append_assoc, subEscByte_eq]
+    by_cases h34 : c = 34
+    · subst h34
+      simp only [subCommentHazard, Gen.Config.stripCommentQuote, if_true] at hz
+      have := ih (!odd) rest hz
+      simp only [Bool.not_not] at this
+      simp [stripCommentsAux, Gen.Config.stripCommentQuote, Gen.Config.stripCommentChars, quoteParity, this]
+    by_cases h92 : c = 92
+    · subst h92
+      simp only [subCommentHazard, Gen.Config.stripCommentQuote, Gen.Config.stripCommentChars] at hz
+      have hz' : subCommentHazard s odd = false := by
+        revert hz; cases odd <;> simp
+      have := ih odd rest hz'
+      simp [stripCommentsAux, Gen.Config.stripCommentQuote, Gen.Config.stripCommentChars, quoteParity, this]
+    simp only [h34, h92, if_false, List.singleton_append]
+    simp only [subCommentHazard, Gen.Config.stripCommentQuote, h34, if_false] at hz
+    split at hz
+    · cases hz
+    · rename_i hc
+      have := ih odd rest hz
+      simp only [Bool.and_eq_true, not_and, Bool.not_eq_true] at hc
+      cases odd with
+      | false =>
+        simp only [Bool.not_false] at this
+        simp [stripCommentsAux, Gen.Config.stripCommentQuote, h34, quoteParity, this]
+      | true =>
+        have hc' : ¬ c ∈ Gen.Config.stripCommentChars := by simpa using hc rfl
+        simp only [Bool.not_true] at this
+        simp [stripCommentsAux, Gen.Config.stripCommentQuote, h34, quoteParity, this, hc']
+
+theorem findClose_plain (P : Bytes) (hP : ∀ c ∈ P, Plain c) (rest : Bytes) (inq : Bool) (i : Nat) :
+    findClose (P ++ rest) inq false i = findClose rest inq false (i + P.length) := by
+  induction P generalizing i with
+  | nil => rfl
+  | cons c P ih =>
+    obtain ⟨h34, h92, h93, _, _⟩ := hP c (by simp)
+    have := ih (fun d hd => hP d (by simp [hd])) (i + 1)
+    simp only [List.cons_append, findClose, Gen.Config.hdrQuote, Gen.Config.hdrClose, Gen.Config.hdrEscape,
+      h34, h92, h93, if_false, Bool.false_eq_true, decide_false, Bool.false_and, this, List.length_cons]
+    congr 1; omega
+
+theorem findClose_escaped (s : Bytes) (rest : Bytes) (i : Nat) :
+    findClose (s.flatMap subEscByte ++ rest) true false i =
+      findClose rest true false (i + (s.flatMap subEscByte).length) := by
+  induction s generalizing i with
+  | nil => rfl
+  | cons c s ih =>
+    rw [List.flatMap_cons, List.append_assoc, subEscByte_eq]
+    by_cases h34 : c = 34
+    · subst h34
+      simp [findClose, Gen.Config.hdrQuote, Gen.Config.hdrClose, Gen.Config.hdrEscape, ih]; congr 1; omega
+    by_cases h92 : c = 92
+    · subst h92
+      simp [findClose, Gen.Config.hdrQuote, Gen.Config.hdrClose, Gen.Config.hdrEscape, ih]; congr 1; omega
+    simp [h34, h92, findClose, Gen.Config.hdrQuote, Gen.Config.hdrClose, Gen.Config.hdrEscape, ih]; congr 1; omega
+
+theorem splitOnce_found (sep : UInt8) (pre post : Bytes) (h : ¬ sep ∈ pre) :
+    splitOnce sep (pre ++ sep :: post) = (pre, some post) := by
+  induction pre with
+  | nil => simp [splitOnce]
+  | cons c pre ih =>
+    simp only [List.mem_cons, not_or] at h
+    have hc : c ≠ sep := fun e => h.1 e.symm
+    simp [splitOnce, hc, ih h.2]
+
+theorem splitOnce_absent (sep : UInt8) (s : Bytes) (h : ¬ sep ∈ s) : splitOnce sep s = (s, none) := by
+  induction s with
+  | nil => simp [splitOnce]
+  | cons c s ih =>
+    simp only [List.mem_cons, not_or] at h
+    have hc : c ≠ sep := fun e => h.1 e.symm
+    simp [splitOnce, hc, ih h.2]
+
+
+theorem name_plain {name : Bytes} (hn : checkSectionName name = true) :
+    (∀ c ∈ (91 :: name), Plain c) ∧ ¬ 32 ∈ name := by
+  unfold checkSectionName at hn
+  rw [List.all_eq_true] at hn
+  constructor
+  · intro c hc
+    rcases List.mem_cons.mp hc with rfl | hc
+    · unfold Plain; decide
+    · exact (sectionChar_plain c (hn c hc)).1
+  · intro h; exact (sectionChar_plain 32 (hn 32 h)).2 rfl
+
+/-- `[name]\n` is read back as `(name,)` -/
+theorem parseHeader_written_plain (name : Bytes) (hn : checkSectionName name = true) (hd : ¬ 46 ∈ name) :
+    parseHeader (91 :: name ++ [93, 10]) = .ok ((name, none), []) := by
+  obtain ⟨hP, h32⟩ := name_plain hn
+  have e0 : stripComments (91 :: name ++ [93, 10]) = 91 :: name ++ [93, 10] := by
+    unfold stripComments
+    rw [stripCommentsAux_plain (91 :: name) hP]; rfl
+  have e1 : rstrip (stripComments (91 :: name ++ [93, 10])) = 91 :: name ++ [93] := by
+    rw [e0]
+    have : 91 :: name ++ [93, 10] = (91 :: name ++ [93]) ++ [10] := by simp
+    rw [this, rstrip_snoc_ws _ 10 (by decide)]
+    exact rstrip_of_last (b := 93) List.getLast?_concat (by decide)
+  have e2 : findClose (91 :: name ++ [93]) false false 0 = some (name.length + 1) := by
+    rw [findClose_plain (91 :: name) hP]
+    simp [findClose, Gen.Config.hdrQuote, Gen.Config.hdrClose]
+  unfold parseHeader
+  simp only [e1, e2]
+  have e3 : (List.take (name.length + 1) (91 :: name ++ [93])).drop 1 = name := by simp
+  have e4 : List.drop (name.length + 1 + 1) (91 :: name ++ [93]) = [] := by simp
+  rw [e3, e4, splitOnce_absent _ _ (by simpa [Gen.Config.hdrSplit] using h32)]
+  simp only [hn, Bool.not_true, Bool.false_eq_true, if_false]
+  rw [splitOnce_absent _ _ (by simpa [Gen.Config.hdrDot] using hd)]
+
+
+theorem take_drop_mid (a b : UInt8) (M : Bytes) :
+    ((a :: (M ++ [b])).take (M.length + 1)).drop 1 = M ∧ (a :: (M ++ [b])).drop (M.length + 1 + 1) = [] := by
+  simp
+
+theorem stripCommentsAux_close (o : Bool) : stripCommentsAux [34, 93, 10] o = [34, 93, 10] := by
+  cases o <;> decide
+
+/-- `[name "escaped-subsection"]\n` is read back as `(name, subsection)` -/
+theorem parseHeader_written_sub (name sub : Bytes) (hn : checkSectionName name = true)
+    (hs : subCommentHazard sub false = false) :
+    parseHeader (91 :: name ++ [32, 34] ++ sub.flatMap subEscByte ++ [34, 93, 10]) = .ok ((name, some sub), []) := by
+  obtain ⟨hP0, h32⟩ := name_plain hn
+  generalize hE : sub.flatMap subEscByte = E
+  have hP : ∀ c ∈ (91 :: name ++ [32]), Plain c := by
+    intro c hc
+    rcases List.mem_append.mp hc with hc | hc
+    · exact hP0 c hc
+    · simp only [List.mem_singleton] at hc; subst hc; unfold Plain; decide
+  have shape : 91 :: name ++ [32, 34] ++ E ++ [34, 93, 10] = (91 :: name ++ [32]) ++ 34 :: (E ++ [34, 93, 10]) := by simp
+  have e0 : stripComments (91 :: name ++ [32, 34] ++ E ++ [34, 93, 10]) = 91 :: name ++ [32, 34] ++ E ++ [34, 93, 10] := by
+    rw [shape]
+    unfold stripComments
+    rw [stripCommentsAux_plain _ hP]
+    congr 1
+    have := stripCommentsAux_escaped sub false [34, 93, 10] hs
+    rw [hE, stripCommentsAux_close] at this
+    simp only [Bool.not_false] at this
+    simp [stripCommentsAux, Gen.Config.stripCommentQuote, this]
+  let M : Bytes := name ++ 32 :: 34 :: (E ++ [34])
+  have e1 : rstrip (stripComments (91 :: name ++ [32, 34] ++ E ++ [34, 93, 10])) = 91 :: (M ++ [93]) := by
+    rw [e0]
+    have : 91 :: name ++ [32, 34] ++ E ++ [34, 93, 10] = (91 :: (M ++ [93])) ++ [10] := by simp [M]
+    rw [this, rstrip_snoc_ws _ 10 (by decide)]
+    exact rstrip_of_last (b := 93) (by rw [← List.cons_append]; exact List.getLast?_concat) (by decide)
+  have e2 : findClose (91 :: (M ++ [93])) false false 0 = some (M.length + 1) := by
+    have : 91 :: (M ++ [93]) = (91 :: name ++ [32]) ++ 34 :: (E ++ [34, 93]) := by simp [M]
+    rw [this, findClose_plain _ hP]
+    have step : ∀ i, findClose (34 :: (E ++ [34, 93])) false false i = findClose (E ++ [34, 93]) true false (i + 1) := by
+      intro i; simp [findClose, Gen.Config.hdrQuote, Gen.Config.hdrClose, Gen.Config.hdrEscape]
+    rw [step, ← hE, findClose_escaped, hE]
+    simp [findClose, Gen.Config.hdrQuote, Gen.Config.hdrClose, Gen.Config.hdrEscape, M]
+    omega
+  unfold parseHeader
+  simp only [e1, e2]
+  obtain ⟨e3, e4⟩ := take_drop_mid 91 93 M
+  rw [e3, e4]
+  have e5 : splitOnce Gen.Config.hdrSplit M = (name, some (34 :: (E ++ [34]))) :=
+    splitOnce_found 32 name _ h32
+  rw [e5]
+  have e6 : isQuoted (34 :: (E ++ [34])) = true := by
+    have : (34 :: (E ++ [34]) : Bytes).getLast? = some 34 := by rw [← List.cons_append]; exact List.getLast?_concat
+    simp [isQuoted, Gen.Config.hdrQuote, this]
+  have e7 : inner (34 :: (E ++ [34])) = E := by simp [inner]
+  simp only [e6, if_true, e7, hn]
+  rw [← hE, unescape_escaped]
+
 end Dulwich.Config
